@@ -386,7 +386,7 @@ def cases(rng, tier):
             for block in (True, False):
                 for pref in itertools.product((0, 1), repeat=7 if tier == "quick" else 11):
                     out.append({"maxsize": maxsize, "block": block, "progs": [list(p) for p in progs], "schedule": list(pref)})
-    for _ in range(1500 if tier == "quick" else 120000):
+    for _ in range(5000 if tier == "quick" else 120000):
         progs = rand_progs(rng, rng.random() < 0.5)
         n = len(progs)
         out.append({"maxsize": rng.choice([1, 2]), "block": rng.random() < 0.5, "progs": progs,
